@@ -1,16 +1,14 @@
-//go:build verif && noinspect
+//go:build verif && (noinspect || noxsyncapi)
 
 package cache
 
-import "github.com/fufuok/cache/internal/xsync"
-
 const VerifInspect = false
 
-func VerifCacheStats(c Cache) (xsync.MapStats, bool) { return xsync.MapStats{}, false }
-func VerifCacheOfStats[K comparable, V any](c CacheOf[K, V]) (xsync.MapStats, bool) {
-	return xsync.MapStats{}, false
+func VerifCacheStats(c Cache) (VerifMapStats, bool) { return VerifMapStats{}, false }
+func VerifCacheOfStats[K comparable, V any](c CacheOf[K, V]) (VerifMapStats, bool) {
+	return VerifMapStats{}, false
 }
-func VerifBucketIndex(m Map, key string) int                              { return -1 }
-func VerifBucketIndexOf[K comparable, V any](m MapOf[K, V], key K) int    { return -1 }
-func VerifLockedBuckets(m interface{}) int                                { return -1 }
-func VerifStructure(m interface{}) []string                               { return nil }
+func VerifBucketIndex(m Map, key string) int                           { return -1 }
+func VerifBucketIndexOf[K comparable, V any](m MapOf[K, V], key K) int { return -1 }
+func VerifLockedBuckets(m interface{}) int                             { return -1 }
+func VerifStructure(m interface{}) []string                            { return nil }
